@@ -22,6 +22,11 @@ func init() {
 		"nondetU64":    func(in *Interp, fn *ssa.Function, a []Value) Value { return in.freshBV(tagOf(a[0]), 64) },
 		"nondetI64":    func(in *Interp, fn *ssa.Function, a []Value) Value { return in.freshBV(tagOf(a[0]), 64) },
 		"nondetInt":    func(in *Interp, fn *ssa.Function, a []Value) Value { return in.freshBV(tagOf(a[0]), 64) },
+		"nondetMathI64": func(in *Interp, fn *ssa.Function, a []Value) Value {
+			t := in.freshInt(tagOf(a[0]))
+			in.assume(tAnd(intCmp(">=", t, symInt("(- 9223372036854775808)")), intCmp("<=", t, symInt("9223372036854775807"))))
+			return t
+		},
 		"nondetString": func(in *Interp, fn *ssa.Function, a []Value) Value { return in.freshStr(tagOf(a[0])) },
 		"nondetBytes":  pNondetBytes,
 		"nondetSeq":    pNondetSeq,
@@ -49,6 +54,7 @@ func init() {
 		"guardBy":      pGuardBy,
 		"freeze":       pFreeze,
 		"held":         pHeld,
+		"notHeld":      func(in *Interp, fn *ssa.Function, a []Value) Value { return tNot(pHeld(in, fn, a).(Term)) },
 		"ghostLog":     pGhostLog,
 		"ghostCount":   pGhostCount,
 		"ghostSet":     func(in *Interp, fn *ssa.Function, a []Value) Value { in.ghost[tagOf(a[0])] = a[1]; return nil },
@@ -88,6 +94,14 @@ func init() {
 		"guardOff":        func(in *Interp, fn *ssa.Function, a []Value) Value { in.guardsOff = true; return nil },
 		"jsonBlobKeys":   pJSONBlobKeys,
 		"blobClearTerms": pBlobClearTerms,
+		"timeAgeNS": func(in *Interp, fn *ssa.Function, a []Value) Value {
+			now, acc := a[0].(Term), a[1].(Term)
+			toNS := func(sec Term) Term {
+				return intBin("*", intBin("+", toInt(sec, true), mkInt(unixToYear1Sec)), mkInt(1000000000))
+			}
+			last := tIte(tEq(toInt(acc, true), mkInt(0)), mkInt(0), toNS(acc))
+			return in.satToI64(intBin("-", toNS(now), last))
+		},
 		"noteTrace":    func(in *Interp, fn *ssa.Function, a []Value) Value { in.trace = append(in.trace, tagOf(a[0])); return nil },
 	}
 }
@@ -420,18 +434,18 @@ func pRunSpawned(in *Interp, fn *ssa.Function, a []Value) Value {
 
 // mathSubSat(a, b int64) int64: saturating a-b over mathematical integers (time.Time.Sub contract).
 func pMathSubSat(in *Interp, fn *ssa.Function, a []Value) Value {
-	x, y := bvToInt(a[0].(Term), true), bvToInt(a[1].(Term), true)
+	x, y := toInt(a[0].(Term), true), toInt(a[1].(Term), true)
 	d := intBin("-", x, y)
 	return in.satToI64(d)
 }
 
 func (in *Interp) satToI64(d Term) Term {
 	if d.C {
-		return mkBV(64, d.U)
+		return d
 	}
 	maxI, minI := "9223372036854775807", "(- 9223372036854775808)"
-	e := fmt.Sprintf("(ite (> %s %s) #x7fffffffffffffff (ite (< %s %s) #x8000000000000000 ((_ int2bv 64) %s)))", d.E, maxI, d.E, minI, d.E)
-	return symBV(64, e)
+	e := fmt.Sprintf("(ite (> %s %s) %s (ite (< %s %s) %s %s))", d.E, maxI, maxI, d.E, minI, minI, d.E)
+	return symInt(e)
 }
 
 // ---------- blobs ----------
